@@ -122,6 +122,7 @@ public:
    std::vector<std::string> departedRoots;    // roots of sessions that have left (must never reappear)
    int hostileConn = -1; int witnessConn = -1; int witnessPingTag = 0; int64_t witnessPingSentAtStep = -1; int witnessOutstanding = -1;
    bool inQuiesce = false;
+   bool floodNoop = false;
    std::set<std::string> dontCare;   // paths last written or removed QUIETLY: subscribers were deliberately not told, so mirrors may differ there until the next loud write
    bool skipReplicaCompare = false;   // C13 runs that remove indexed children QUIETLY: replicas legitimately go stale, only the server-side index invariants are checked
    bool recordContent = false; std::vector<std::string> contentLog;   // C10's history-independence differential: everything the clients were sent, in order
@@ -237,6 +238,7 @@ public:
    void OnCommandBegin(int connIdx, const MessageRef & msg)
    {
       Conn * c = C(connIdx); if ((c == NULL)||(msg() == NULL)) return;
+      if ((c->c2s.flooded > 0)&&(msg()->what == PR_COMMAND_NOOP)&&(cmdDepth == 0)) {floodNoop = true; st.inc("flood_noops_processed"); return;}   // a flooding client's NOOPs: no model work, no per-command oracles
       currentCmdConn = connIdx; cmdsProcessed++;
       const bool topLevel = (cmdDepth++ == 0);   // sub-commands of a BATCH re-enter here
       cmdCopies.push_back(GetMessageFromPool(*msg()));   // the handler may move fields out of the command (SETPARAMETERS does): the model reads this copy
@@ -271,6 +273,7 @@ public:
    }
    void OnCommandEnd(int connIdx, const MessageRef & msg)
    {
+      if (floodNoop) {floodNoop = false; return;}
       Conn * c = C(connIdx); currentCmdConn = -1; if ((c == NULL)||(msg() == NULL)) return;
       if (cmdDepth > 0) cmdDepth--;
       MessageRef asReceived; if (!cmdCopies.empty()) {asReceived = cmdCopies.back(); cmdCopies.pop_back();}
@@ -681,6 +684,7 @@ public:
    void Quiesce(const char * why)
    {
       inQuiesce = true;
+      for (auto & cp : conns) if ((cp)&&(cp->c2s.floodUnit)) {cp->c2s.floodUnit = NULL; st.inc("p.flood_ended_by_quiescent_point");}   // a flooding client is never quiescent: the flood (a fault) ends here like every other fault
       struct Saved {bool noread, stalled; uint64_t cap; std::vector<uint32_t> r, w;}; std::vector<Saved> saved;
       for (auto & cp : conns)
       {
